@@ -207,7 +207,11 @@ func (s *SMF) finishTempoChanges() {
 
 func (s *SMF) calculateAbsTimes() {
 	var lasttcTick, lasttcTimeMicroSec int64
-	mt := s.TimeFormat.(MetricTicks)
+	mt, isMetric := s.TimeFormat.(MetricTicks)
+	if !isMetric {
+		// with SMPTE time code the ticks are absolute time already, tempo changes do not apply
+		return
+	}
 	for _, tc := range s.tempoChanges {
 		diffTicks := tc.AbsTicks - lasttcTick
 
